@@ -51,7 +51,7 @@ var provRe = regexp.MustCompile(`(?:provision|validate) ([a-z0-9_]+\.[a-z0-9_.]+
 //	"env"        the sandbox lacks a file / host / environment variable the input names
 //	"structural" the JSON is outside the config language (strict decode, unknown module/field, panic)
 //	"semantic"   a module's own Provision/Validate rejected a value the adapter passed through
-func classifyInvalid(v validRes) (cls string, kind string) {
+func classifyInvalid(v validRes, input string) (cls string, kind string) {
 	m := v.msg
 	if v.stage == "decode" || v.stage == "panic" || v.stage == "hang" {
 		return "structural:" + v.stage + ":" + signature(m, 8), "structural"
@@ -72,12 +72,34 @@ func classifyInvalid(v validRes) (cls string, kind string) {
 	if strings.Contains(m, "evaluated placeholder {env.") && strings.Contains(m, "is empty") {
 		return "unset-env-placeholder", "env"
 	}
+	// the innermost namespaced module id of the chain ("provision http.matchers.x: " or the
+	// module's own "http.handlers.encode: " prefix) and what follows it
 	mod, tail := "-", m
-	if loc := provRe.FindAllStringSubmatchIndex(m, -1); len(loc) > 0 {
+	if loc := modRe.FindAllStringSubmatchIndex(m, -1); len(loc) > 0 {
 		l := loc[len(loc)-1]
 		mod, tail = m[l[2]:l[3]], m[l[1]:]
 	}
-	return "semantic:" + mod + ":" + headTail(tail), "semantic"
+	return "semantic:" + mod + ":" + headTail(blankInputWords(tail, input)), "semantic"
+}
+
+var modRe = regexp.MustCompile(`(?:^|[ :])(?:provision |validate )?((?:http|tls|caddy|pki|events|admin|logging)\.[a-z0-9_]+(?:\.[a-z0-9_]+)*): `)
+
+// blankInputWords replaces every word of the message that is a token of the input text by "_",
+// so that the class does not depend on the values the input happens to use.
+func blankInputWords(m, input string) string {
+	toks := map[string]bool{}
+	for _, t := range strings.Fields(input) {
+		toks[t] = true
+		toks[strings.Trim(t, "\"`'")] = true
+	}
+	w := strings.Fields(m)
+	for i, x := range w {
+		core := strings.Trim(x, "\"`'.,;:()[]")
+		if core != "" && toks[core] {
+			w[i] = strings.Replace(x, core, "_", 1)
+		}
+	}
+	return strings.Join(w, " ")
 }
 
 var wrapperRe = regexp.MustCompile(`^(getting|loading|provisioning|setting up|building|configuring|position|provision|validate|server|route|module name|listener|connection policy) [^:]*: `)
